@@ -120,6 +120,16 @@ func genCase(t *rapid.T, nodeFailure bool) Case {
 	if steps[0].ClientID != "dying" {
 		steps = append(steps, dying)
 	}
+	if rapid.IntRange(0, 2).Draw(t, "twins") == 0 {
+		// other sessions on the same node (and mount point) whose wills are byte-identical to the
+		// dying one's (a fleet of devices configured alike): each session's will is its own
+		for k, n := 0, rapid.IntRange(1, 3).Draw(t, "ntwins"); k < n; k++ {
+			cNew := c.Clients
+			c.Clients++
+			w := *will
+			steps = append(steps, sim.Step{Op: "connect", C: cNew, Node: c.WillNode, ClientID: fmt.Sprintf("twin%d", k), KeepAlive: ka, MP: willMP, Will: &w})
+		}
+	}
 	if rapid.Bool().Draw(t, "dyingSubscribes") {
 		// the dying session may itself be subscribed to its will topic: it must not get it
 		steps = append(steps, sim.Step{Op: "sub", C: 0, Filters: []string{"#"}, QoS: []int{0}})
